@@ -289,15 +289,30 @@ def _guarded_impl(suite: "Suite", case: dict, seconds: int = 120) -> dict:
     """Run the implementation on one case under a wall-clock guard (a hang is an outcome, not a stuck check)."""
     import signal
 
+    import resource
+
     old = signal.signal(signal.SIGALRM, _alarm)
     signal.alarm(seconds)
+    soft, hard = resource.getrlimit(resource.RLIMIT_AS)
+    lim = 2 * 1024**3
+    try:
+        # an implementation that starts enumerating astronomically large sets must fail with MemoryError here
+        resource.setrlimit(resource.RLIMIT_AS, (lim if hard == resource.RLIM_INFINITY else min(lim, hard), hard))
+    except (ValueError, OSError):
+        pass
     try:
         return suite.run_impl(case)
     except _Timeout:
         return {"timeout": True}
+    except MemoryError:
+        return {"memory_error": True}
     finally:
         signal.alarm(0)
         signal.signal(signal.SIGALRM, old)
+        try:
+            resource.setrlimit(resource.RLIMIT_AS, (soft, hard))
+        except (ValueError, OSError):
+            pass
 
 
 def _chunk_worker(args) -> dict:
@@ -311,7 +326,16 @@ def _chunk_worker(args) -> dict:
         cases = suite.corpus(prop) if idx < 0 else suite.generate(rng, n, prop, tier)
         for i, c in enumerate(cases):
             c["id"] = i
-        impls = [_guarded_impl(suite, c) for c in cases]
+        impls = []
+        broken = 0
+        for c in cases:
+            im = _guarded_impl(suite, c)
+            impls.append(im)
+            if im.get("timeout") or im.get("memory_error"):
+                broken += 1
+                if broken >= 3:  # the tree under test hangs / explodes: no point in burning the whole budget
+                    break
+        cases = cases[: len(impls)]
         models = run_model(suite.name, [suite.model_case(c) for c in cases])
         for c, im, mo in zip(cases, impls, models):
             res["n"] += 1
@@ -366,7 +390,7 @@ def recheck(suite: Suite, case: dict, prop: str) -> typing.Tuple[typing.Optional
     """Re-run one case on both sides: (oracle violation, correspondence disagreement, impl, model)."""
     c = dict(case)
     c["id"] = 0
-    im = suite.run_impl(c)
+    im = _guarded_impl(suite, c)
     mo = run_model(suite.name, [suite.model_case(c)])[0]
     return suite.oracle(c, im, prop), suite.compare(c, im, mo, prop), im, mo
 
@@ -376,11 +400,12 @@ def shrink_case(suite: Suite, case: dict, prop: str, want: str, sig: str, budget
     cur = case
     steps = 0
     improved = True
-    while improved and steps < budget:
+    deadline = time.time() + 60
+    while improved and steps < budget and time.time() < deadline:
         improved = False
         for cand in suite.shrink(cur):
             steps += 1
-            if steps >= budget:
+            if steps >= budget or time.time() > deadline:
                 break
             try:
                 v, d, _, _ = recheck(suite, cand, prop)
